@@ -2,7 +2,9 @@ package checks
 
 import (
 	"bytes"
+	"context"
 	"fmt"
+	"sync"
 	"testing"
 
 	"github.com/IBM/TSS/mpc/ps"
@@ -85,6 +87,44 @@ func runC08(c c08Case) *vh.Outcome {
 		if err != nil {
 			fail = vh.Failf("C08/sign-unblind", "n=%d t=%d L=%d msgs=%x: %v", c.N, c.T, c.L, c.Msgs, err)
 			return
+		}
+		// all parties sign the same request AT THE SAME TIME (they are separate objects; in one process they share only what
+		// the library keeps globally) - every partial signature must still unblind under its signer's key
+		{
+			pr, _ := f.Prover()
+			sigs := make([][]byte, c.N)
+			errs := make([]error, c.N)
+			for round := 0; round < 2 && fail == nil; round++ {
+				var wg sync.WaitGroup
+				for i := range f.Parties {
+					i := i
+					s, serr := f.Signer(i)
+					if serr != nil {
+						continue
+					}
+					wg.Add(1)
+					go func() {
+						defer wg.Done()
+						defer func() {
+							if r := recover(); r != nil {
+								errs[i] = fmt.Errorf("panic: %v", r)
+							}
+						}()
+						sigs[i], errs[i] = s.Sign(context.Background(), chain.Request)
+					}()
+				}
+				wg.Wait()
+				for i := range f.Parties {
+					if errs[i] != nil {
+						fail = vh.Failf("C08/concurrent-signers", "party %d refused a valid request while the other parties were signing it at the same time: %v (n=%d t=%d L=%d)", f.Parties[i], errs[i], c.N, c.T, c.L)
+						return
+					}
+					if _, uerr := pr.UnBlind(f.Parties[i], sigs[i], chain.Secret); uerr != nil {
+						fail = vh.Failf("C08/concurrent-signers", "the partial signature that party %d made while the other parties were signing at the same time does not unblind under its key: %v (n=%d t=%d L=%d)", f.Parties[i], uerr, c.N, c.T, c.L)
+						return
+					}
+				}
+			}
 		}
 		v, err := f.Verifier()
 		if err != nil {
